@@ -19,6 +19,10 @@ enum Kind {
     Tamper { from: usize, to: usize, two_point: bool, all_values: bool },
     /// zero-width element containers: count rewrites on the encodings of values [from, to)
     ZeroWidth { from: usize, to: usize },
+    /// encodings written by the other versions of the histories this declaration belongs to (values
+    /// [0, per_writer) of each), untouched and 1-point tampered: what an older / newer program left
+    /// behind, read by this version
+    CrossVersion { writers: Vec<String>, per_writer: usize },
     /// one explicit input (replay)
     One(Vec<u8>),
 }
@@ -179,6 +183,22 @@ fn run_item(prop: &str, it: &Item, st: &mut Stats, thorough: bool) {
                 prev = Some(b.clone());
             }
         }
+        Kind::CrossVersion { writers, per_writer } => {
+            let p = common::params_for(thorough);
+            for w in writers {
+                let wty = refmodel::spec::decl_ty(w, universe::THOROUGH);
+                for v in values(&wty, &p).iter().take(*per_writer) {
+                    let Ok(mb) = ref_encode(&wty, v) else { continue };
+                    let b = &mb.b;
+                    if b.len() > 96 {
+                        continue;
+                    }
+                    st.add("other_version_encodings_read", 1);
+                    run_input(prop, e, b, "other-version", st);
+                    tamper::one_point(b, &ALPHABET, &mut |s| run_input(prop, e, s, "other-version 1-point", st));
+                }
+            }
+        }
         Kind::ZeroWidth { from, to } => {
             let p = common::params_for(thorough);
             // the costly counts only on the first values (the loop depends on the count alone)
@@ -302,6 +322,22 @@ fn build_items<'a>(u: &'a U, run: &Run) -> Vec<Item<'a>> {
                 items.push(Item { e, kind: Kind::Full { len, first: None } });
             }
         }
+        if e.tags.contains(&"history") {
+            let mut writers: Vec<String> = Vec::new();
+            for names in &u.spec.hist_decl {
+                if names.iter().any(|n| *n == e.name) {
+                    for n in names {
+                        if *n != e.name && !writers.contains(n) {
+                            writers.push(n.clone());
+                        }
+                    }
+                }
+            }
+            // one work item per few writers
+            for c in writers.chunks(4) {
+                items.push(Item { e, kind: Kind::CrossVersion { writers: c.to_vec(), per_writer: if thorough { 48 } else { 12 } } });
+            }
+        }
         let nvals = values(&e.ty, &p).len();
         let cap = if thorough { nvals } else { std::cmp::min(nvals, 64) };
         let mut from = 0;
@@ -335,6 +371,8 @@ pub fn deep_targets(u: &U) -> Vec<String> {
             Ty::Record(rd) => {
                 d.tags.contains(&"one_field")
                     || d.tags.contains(&"recursive")
+                    || d.tags.contains(&"evolved_nested")
+                    || d.tags.contains(&"dedup_evolved")
                     || d.tags.contains(&"opt_alias")
                     || (d.tags.contains(&"two_fields") && rd.fields.iter().any(|f| matches!(&f.ty, Ty::Record(_)) || f.ty == Ty::DedupStr) && rd.fields.iter().all(|f| f.transient.is_none()))
             }
@@ -499,7 +537,7 @@ pub fn run(prop: &str, tier: &str, only: Option<String>) -> i32 {
     }
     let thorough = run.thorough();
     run.rule = format!(
-        "every table row of the universe x (all byte strings over the 12-byte format alphabet up to length {} ({} for the deep target set), all byte strings over all 256 values up to length {} ({} deep), every 1-point tampering (alphabet bytes: replace, delete, duplicate, insert, truncate; all 256 byte values at every position for the deep set / in the thorough tier) / framing-aware rewrite / splice of every valid encoding{}), in both build profiles; containers of zero-width elements get the dedicated count enumeration of DESIGN 6 C05. {}",
+        "every table row of the universe x (all byte strings over the 12-byte format alphabet up to length {} ({} for the deep target set), all byte strings over all 256 values up to length {} ({} deep), every 1-point tampering (alphabet bytes: replace, delete, duplicate, insert, truncate; all 256 byte values at every position for the deep set / in the thorough tier) / framing-aware rewrite / splice of every valid encoding{}; for every history declaration also the encodings written by every other version of its histories, untouched and 1-point tampered), in both build profiles; containers of zero-width elements get the dedicated count enumeration of DESIGN 6 C05. {}",
         if thorough { 5 } else { 4 },
         if thorough { 7 } else { 5 },
         2,
